@@ -2,7 +2,7 @@
 #include "scenario.h"
 
 namespace {
-struct Local { uint64_t specs = 0, runs = 0, faults_consumed = 0, faults_unreached = 0, max_allocs = 0, retries = 0; uint64_t per_kind[K_NKINDS] = {0}; };
+struct Local { uint64_t specs = 0, runs = 0, faults_consumed = 0, faults_unreached = 0, max_allocs = 0, retries = 0, chain_runs = 0; uint64_t per_kind[K_NKINDS] = {0}; };
 
 template <class C> struct Runner {
     Ctx *ctx; Local *lc; ArenaMM ro; Mem led, libc;
@@ -49,6 +49,53 @@ template <class C> struct Runner {
         if (!what.empty()) { ctx->violation("", e, what + " in " + sp.show() + fmt(" [fail at %llu, %llu, from %llu of %llu requests]", (unsigned long long)at, (unsigned long long)at2, (unsigned long long)from, (unsigned long long)nreq)); mem.reset(); return false; }
         return true;
     }
+    // operation chains under faults: parse, normalize in place, resolve, normalize the result, create a reference from it, make that
+    // one owner - with the k-th allocation of the WHOLE chain failing (once / from k on).  Steps after a failing one still run, on
+    // whatever the failing step left behind: an object that is inconsistent after a failure shows in the next call or in the ledger.
+    struct ChainOut { int rc[5]; uint64_t nreq; };
+    bool chain_exec(const Str &t, const Str &bt, int m1, Mem &mem, uint64_t at, uint64_t from, ChainOut *base_out) {
+        typedef Api<C> A; typedef typename A::Uri Uri; lc->runs++; lc->chain_runs++; ctx->progress++; mem.reset();
+        Str e = "chain`" + t + "`" + bt + fmt("`%d`%d`%llu`%llu`%s", m1, mem.kind, (unsigned long long)at, (unsigned long long)from, A::name()); int sig; Str what; SanWatch sw;
+        if ((sig = GUARD_ENTER()) != 0) { ctx->violation("", e, fmt("%s in an operation chain under an allocation failure", signame(sig))); mem.reset(); return false; }
+        UriMemoryManager *mm = mem.mm(); std::basic_string<C> w = widen<C>(t), bw = widen<C>(bt); const C *ep; Uri u, b, d, s2; memset(&d, 0, sizeof d); memset(&s2, 0, sizeof s2);
+        bool ok = (mm ? A::ParseSingleUriExMm(&u, w.data(), w.data() + w.size(), &ep, mm) : A::ParseSingleUriEx(&u, w.data(), w.data() + w.size(), &ep)) == URI_SUCCESS;
+        ok = (mm ? A::ParseSingleUriExMm(&b, bw.data(), bw.data() + bw.size(), &ep, mm) : A::ParseSingleUriEx(&b, bw.data(), bw.data() + bw.size(), &ep)) == URI_SUCCESS && ok;
+        ChainOut o; memset(&o, 0, sizeof o);
+        if (ok) {
+            Str bkey = observe<C>(b).key();
+            mem.arm(at, 0, from); uint64_t f0;
+            auto step = [&](int i, int rc) { o.rc[i] = rc; uint64_t f1 = mem.failed(); if (what.empty() && f1 != f0 && rc != URI_ERROR_MALLOC) what = fmt("step %d consumed a failing allocation but returned %d", i, rc); if (what.empty() && f1 == f0 && rc == URI_ERROR_MALLOC) what = fmt("step %d returned URI_ERROR_MALLOC without a failing allocation", i); };
+            f0 = mem.failed(); step(0, mm ? A::NormalizeSyntaxExMm(&u, (unsigned)m1, mm) : A::NormalizeSyntaxEx(&u, (unsigned)m1));
+            f0 = mem.failed(); step(1, mm ? A::AddBaseUriExMm(&d, &u, &b, URI_RESOLVE_STRICTLY, mm) : A::AddBaseUri(&d, &u, &b));
+            f0 = mem.failed(); step(2, mm ? A::NormalizeSyntaxExMm(&d, 63, mm) : A::NormalizeSyntax(&d));
+            f0 = mem.failed(); step(3, mm ? A::RemoveBaseUriMm(&s2, &d, &b, URI_FALSE, mm) : A::RemoveBaseUri(&s2, &d, &b, URI_FALSE));
+            f0 = mem.failed(); step(4, mm ? A::MakeOwnerMm(&s2, mm) : A::MakeOwner(&s2));
+            o.nreq = mem.requests(); mem.disarm();
+            // every object, whatever happened to it, must still be writable with exact sizes (C05 on post-failure objects)
+            for (Uri *x : { &u, &d, &s2 }) { int need = -1; if (A::ToStringCharsRequired(x, &need) == URI_SUCCESS && need >= 0) { std::vector<C> buf((size_t)need + 2, (C)0x55); int wr = -1; int trc = A::ToString(buf.data(), x, need + 1, &wr); size_t len = 0; while (len < buf.size() && buf[len]) len++;
+                if (what.empty() && (trc != URI_SUCCESS || (int)len != need || wr != need + 1)) what = fmt("an object of the chain recomposes inconsistently after the failure (rc %d, required %d, written %d, length %zu)", trc, need, wr, len); } }
+            if (what.empty() && observe<C>(b).key() != bkey) what = "the base (read-only argument of two calls) changed";
+            if (what.empty() && base_out && !at && !from) *base_out = o;
+            if (what.empty() && base_out && (at || from) && mem.failed() == 0 && memcmp(o.rc, base_out->rc, sizeof o.rc) != 0) what = "no failure was consumed, yet the return codes differ from the undisturbed chain";
+            if (mem.failed()) lc->faults_consumed++;
+            if (mm) { A::FreeUriMembersMm(&s2, mm); A::FreeUriMembersMm(&d, mm); } else { A::FreeUriMembers(&s2); A::FreeUriMembers(&d); }
+        }
+        mem.disarm();
+        if (mm) { A::FreeUriMembersMm(&u, mm); A::FreeUriMembersMm(&b, mm); } else { A::FreeUriMembers(&u); A::FreeUriMembers(&b); }
+        if (what.empty() && mem.outstanding() != 0) what = fmt("%ld block(s) still allocated after freeing every URI of the chain", mem.outstanding());
+        if (what.empty() && !mem.misuse().empty()) what = "allocator misuse: " + mem.misuse();
+        if (what.empty() && !mem.bypass().empty()) what = mem.bypass();
+        GUARD_LEAVE();
+        if (what.empty() && sw.tripped()) what = "AddressSanitizer reported an invalid access";
+        if (base_out && !at && !from) base_out->nreq = o.nreq;
+        if (!what.empty()) { ctx->violation("", e, what + fmt(" [chain normalize(%d); resolve; normalize; shorten; makeOwner on '%s' with base '%s', rcs %d %d %d %d %d]", m1, esc(t).c_str(), esc(bt).c_str(), o.rc[0], o.rc[1], o.rc[2], o.rc[3], o.rc[4])); mem.reset(); return false; }
+        return ok;
+    }
+    void run_chain(const Str &t, const Str &bt, int m1) {
+        for (int mk = 0; mk < 2; mk++) { Mem &mem = mk ? libc : led; ChainOut b0; memset(&b0, 0, sizeof b0);
+            if (!chain_exec(t, bt, m1, mem, 0, 0, &b0)) continue;
+            for (uint64_t k = 1; k <= b0.nreq; k++) { chain_exec(t, bt, m1, mem, k, 0, &b0); chain_exec(t, bt, m1, mem, 0, k, &b0); } }
+    }
     void run_spec(const ScnSpec &sp, int only_mem = -1) {
         lc->specs++; lc->per_kind[sp.kind]++;
         for (int mk = 0; mk < 2; mk++) {
@@ -66,13 +113,24 @@ void run(Ctx &ctx) {
     Local lc; Runner<char> ra(&ctx, &lc); Runner<wchar_t> rw(&ctx, &lc);
     std::vector<ScnSpec> specs = scenario_specs(ctx.secondary ? 0 : ctx.quick() ? 2 : 3);
     for (size_t i = 0; i < specs.size(); i++) { if (!ctx.mine(i)) continue; if (ctx.expired()) break; ra.run_spec(specs[i]); rw.run_spec(specs[i]); }
-    ctx.st.count("evaluations", lc.runs); ctx.st.count("scenarios", lc.specs); ctx.st.count("faults_consumed", lc.faults_consumed); ctx.st.count("faults_not_reached", lc.faults_unreached); ctx.st.count("retries_after_failure", lc.retries);
+    {   // chains
+        std::vector<Str> ts = { "a/./b/../c?q#f", "S://U%41@H:80/%7e/./A/../b?Q%41#%2f", "//[::1]:8/a/..//b", "../x/./y", "s:a/../b:c", "/.//a", "//1.2.3.4/a/b/..", "s://[vF.X]/%2e/x", "?q", "", "a/../b:c/d/..", "t://g/x" };
+        std::vector<Str> bs = { "s://u@[::1]:1/a/./b/../c/d?bq", "s:/a/b", "s:a/b/c", "s://1.2.3.4" }; uint64_t ci = 0;
+        if (ctx.secondary) { ts.resize(4); bs.resize(2); }
+        for (auto &t : ts) for (auto &b : bs) for (int m1 : { 8, 63, 55 }) { if (!ctx.mine(ci++) || ctx.expired()) continue; ra.run_chain(t, b, m1); rw.run_chain(t, b, m1); }
+    }
+    ctx.st.count("evaluations", lc.runs); ctx.st.count("chain_executions", lc.chain_runs); ctx.st.count("scenarios", lc.specs); ctx.st.count("faults_consumed", lc.faults_consumed); ctx.st.count("faults_not_reached", lc.faults_unreached); ctx.st.count("retries_after_failure", lc.retries);
     for (int k = 0; k < K_NKINDS; k++) ctx.st.count(Str("scenarios_") + SCN_NAMES[k], lc.per_kind[k]);
     ctx.st.distinct("max_allocs", fmt("%llu", (unsigned long long)lc.max_allocs));
     if (ctx.worker == 0) { ctx.st.count("universe", specs.size()); ctx.st.sample("normalize(a/b/c, mask 8, borrowed) ledger manager: allocation 2 fails once"); ctx.st.sample("resolve(../../x, s://u@[::1]:1/) libc: allocations 3 and 5 fail"); ctx.st.sample("dissectQuery(a=&b) custom manager: every request from 4 on fails"); }
 }
 void replay(Ctx &ctx, const Str &enc) {
-    std::vector<Str> p = split(enc, '`'); ScnSpec sp; if (p.size() != 10 || !ScnSpec::dec(p, 0, sp)) return; Local lc; int mk = atoi(p[5].c_str());
+    std::vector<Str> p = split(enc, '`');
+    if (p.size() == 8 && p[0] == "chain") { Local lc2; int m1 = atoi(p[3].c_str()), mk = atoi(p[4].c_str()); uint64_t at = strtoull(p[5].c_str(), 0, 10), from = strtoull(p[6].c_str(), 0, 10);
+        if (p[7] == "A") { Runner<char> r(&ctx, &lc2); typename Runner<char>::ChainOut b0; memset(&b0, 0, sizeof b0); Mem &m = mk ? r.libc : r.led; if (r.chain_exec(p[1], p[2], m1, m, 0, 0, &b0) && (at || from)) r.chain_exec(p[1], p[2], m1, m, at, from, &b0); }
+        else { Runner<wchar_t> r(&ctx, &lc2); typename Runner<wchar_t>::ChainOut b0; memset(&b0, 0, sizeof b0); Mem &m = mk ? r.libc : r.led; if (r.chain_exec(p[1], p[2], m1, m, 0, 0, &b0) && (at || from)) r.chain_exec(p[1], p[2], m1, m, at, from, &b0); }
+        return; }
+    ScnSpec sp; if (p.size() != 10 || !ScnSpec::dec(p, 0, sp)) return; Local lc; int mk = atoi(p[5].c_str());
     uint64_t a = strtoull(p[6].c_str(), 0, 10), b = strtoull(p[7].c_str(), 0, 10), f = strtoull(p[8].c_str(), 0, 10);
     if (p[9] == "A") { Runner<char> r(&ctx, &lc); int rc0; Str k0; Mem &m = mk ? r.libc : r.led; if (r.exec(sp, m, 0, 0, 0, &rc0, &k0, 0)) r.exec(sp, m, a, b, f, &rc0, &k0, 0); }
     else { Runner<wchar_t> r(&ctx, &lc); int rc0; Str k0; Mem &m = mk ? r.libc : r.led; if (r.exec(sp, m, 0, 0, 0, &rc0, &k0, 0)) r.exec(sp, m, a, b, f, &rc0, &k0, 0); }
@@ -82,7 +140,7 @@ Str coverage(const Ctx &, const Stats &st) {
     Str per; for (int k = 0; k < K_NKINDS; k++) per += jkv(Str("scenarios_") + SCN_NAMES[k], st.get(Str("scenarios_") + SCN_NAMES[k])) + ", ";
     return jkv("evaluations", st.get("evaluations")) + ", " + jkv("distinct_nontrivial", st.get("faults_consumed")) + ", " +
            jkvs("rule", "cases = (call with inputs, allocator, char type, fault set): calls are parse (3 entry points), makeOwner, normalize (8 masks, borrowed and owned), resolve (2 options), shorten (2 modes), dissectQuery, composeQueryMalloc over the scenario universe; allocator is a ledger manager or libc itself (NULL manager, failures injected in the interposed malloc/calloc/realloc); a counting run gives n requests, then EVERY k in 1..n fails once, EVERY k fails together with all later requests, and EVERY pair k1<k2 fails (deviation bound 2, n <= 48). Oracle: URI_ERROR_MALLOC whenever a failure was consumed, identical result otherwise, no crash, no block outstanding after the caller's ordinary cleanup, no invalid/double free, repeated free harmless, inputs in PROT_READ memory. distinct_nontrivial = executions in which at least one injected failure was actually consumed.") + ", " +
-           jkv("scenarios", st.get("scenarios")) + ", " + jkv("scenario_universe", st.get("universe")) + ", " + per + jkv("faults_consumed", st.get("faults_consumed")) + ", " + jkv("faults_not_reached", st.get("faults_not_reached")) + ", " + jkv("retries_after_failure_compared", st.get("retries_after_failure")) + ", " + jkv("max_requests_in_one_call", mx) + ", " + jsamples(st);
+           jkv("scenarios", st.get("scenarios")) + ", " + jkv("scenario_universe", st.get("universe")) + ", " + per + jkv("faults_consumed", st.get("faults_consumed")) + ", " + jkv("faults_not_reached", st.get("faults_not_reached")) + ", " + jkv("operation_chain_executions_under_faults", st.get("chain_executions")) + ", " + jkv("retries_after_failure_compared", st.get("retries_after_failure")) + ", " + jkv("max_requests_in_one_call", mx) + ", " + jsamples(st);
 }
 Check chk = { "C14", "fault_enumeration", run, replay, coverage, "touching released memory is only visible in the sanitizer pass (ASan) - the plain pass poisons released blocks but hands them back to libc|deviation bound: two independent failures, or one failure with all later ones" };
 REGISTER_CHECK(chk);
